@@ -2,6 +2,8 @@
 
 package quickfix
 
+import "time"
+
 func init() {
 	verifRegister("C14_int_read", VerifHarness_C14_int_read)
 	verifRegister("C14_bool", VerifHarness_C14_bool)
@@ -74,4 +76,92 @@ func VerifHarness_C14_bool() {
 	g := FIXBoolean(v)
 	var h FIXBoolean
 	verifAssert(h.Read(g.Write()) == nil && h.Bool() == v, "bool-read-write-value")
+}
+
+func init() {
+	verifRegister("C14_float", VerifHarness_C14_float)
+	verifRegister("C14_string", VerifHarness_C14_string)
+	verifRegister("C14_timestamp", VerifHarness_C14_timestamp)
+	verifRegister("C14_int_write", VerifHarness_C14_int_write)
+}
+
+// C14_float: FIXFloat.Read accepts -?d+(.d*)? and rejects everything outside -?(d+(.d*)?|.d+)
+// (texts like ".5" on which FIX is silent may go either way). strconv.ParseFloat is replaced by its
+// acceptance model (engine stub), the whitelist loop of FIXFloat.Read runs on top of it.
+func VerifHarness_C14_float() {
+	n := verifConc(ndInt("len", 0, verifBound(5, 7)))
+	b := ndBytes("b", n)
+	for _, c := range b {
+		verifAssume(verifOr(verifAnd(c >= '0', c <= '9'), verifOr(c == '.', verifOr(c == '-', verifOr(c == '+', verifOr(c == 'e', verifOr(c == 'E', c == ' ')))))))
+	}
+	i := 0
+	if i < n && b[i] == '-' {
+		i++
+	}
+	nInt := 0
+	for i < n && verifIsDigit(b[i]) {
+		i++
+		nInt++
+	}
+	nFrac, dot := 0, false
+	if i < n && b[i] == '.' {
+		dot = true
+		i++
+		for i < n && verifIsDigit(b[i]) {
+			i++
+			nFrac++
+		}
+	}
+	inGrammar := i == n && (nInt > 0 || (dot && nFrac > 0))
+	var f FIXFloat
+	err := f.Read(b)
+	if inGrammar && nInt > 0 {
+		verifCase("fix-float")
+		verifAssert(err == nil, "float-grammar-accepted")
+	} else if !inGrammar {
+		verifCase("not-a-fix-float")
+		verifAssert(err != nil, "float-nongrammar-rejected")
+	} else {
+		verifCase("leading-dot-dont-care")
+	}
+}
+
+// C14_string: string and bytes values are the identity in both directions.
+func VerifHarness_C14_string() {
+	n := verifConc(ndInt("len", 0, verifBound(4, 8)))
+	b := ndBytes("b", n)
+	var s FIXString
+	var y FIXBytes
+	verifAssert(s.Read(b) == nil && y.Read(b) == nil, "string-bytes-always-accepted")
+	verifAssert(verifEqBytes(s.Write(), b) && verifEqBytes(y.Write(), b), "string-bytes-write-read-identity")
+	verifAssert(verifEqBytes([]byte(s.String()), b), "string-value-identity")
+}
+
+// C14_int_write: Read(Write(v)) = v for every int (digit contract of strconv.AppendInt), and the text is canonical.
+func VerifHarness_C14_int_write() {
+	v := ndInt("v", -999999999999, 999999999999)
+	w := FIXInt(v).Write()
+	var f FIXInt
+	verifAssert(f.Read(w) == nil && f.Int() == v, "int-read-write-value")
+	verifAssert(len(w) >= 1 && (len(w) == 1 || w[0] != '0') && !(len(w) >= 2 && w[0] == '-' && w[1] == '0'), "int-text-canonical")
+}
+
+// C14_timestamp: Read dispatches on the length to the layout Write uses for the same precision.
+func VerifHarness_C14_timestamp() {
+	base := time.Date(2024, time.March, 9, 7, 5, 3, 123456789, time.UTC)
+	p := TimestampPrecision(verifConc(ndInt("precision", 0, 3)))
+	w := FIXUTCTimestamp{Time: base, Precision: p}.Write()
+	wantLen := map[TimestampPrecision]int{Seconds: 17, Millis: 21, Micros: 24, Nanos: 27}[p]
+	verifAssert(len(w) == wantLen, "timestamp-text-length-per-precision")
+	var r FIXUTCTimestamp
+	verifAssert(r.Read(w) == nil && r.Precision == p, "timestamp-read-recovers-precision")
+	trunc := map[TimestampPrecision]time.Duration{Seconds: time.Second, Millis: time.Millisecond, Micros: time.Microsecond, Nanos: time.Nanosecond}[p]
+	verifAssert(r.Time.Equal(base.Truncate(trunc)), "timestamp-value-truncated-to-precision")
+	verifAssert(verifEqBytes(r.Write(), w), "timestamp-write-read-text")
+	// a text of any other length is rejected whatever it contains
+	n := verifConc(ndInt("otherlen", 15, 28))
+	if n != 17 && n != 21 && n != 24 && n != 27 {
+		var x FIXUTCTimestamp
+		verifAssert(x.Read(ndBytes("junk", n)) != nil, "timestamp-wrong-length-rejected")
+	}
 }
